@@ -831,6 +831,19 @@ class Analysis:
                         return out
                 finally:
                     self._env.pop()
+        if not r.targets and isinstance(c.func, ast.Attribute) and recv is not None:
+            # method of an object whose class(es) the analysis knows (`c.members()` with c an instance of ...)
+            typed = [x[4:] for x in flat(recv) if x.startswith("OBJ:")]
+            tg = []
+            for cq in typed:
+                ci = self.P.classes.get(cq)
+                if ci is None:
+                    continue
+                for m in self.P.dispatch_targets(ci, c.func.attr):
+                    if m not in tg:
+                        tg.append(m)
+            if tg:
+                r = type(r)(tg, how="typed")
         if r.targets:
             out = None
             for t in r.targets:
